@@ -151,10 +151,19 @@ def run(ctx):
                     doc.is_constant_table_inherited = True
         return doc, exp
 
+    def uv(n):
+        """canonical uintvar, written here so that document framing does not depend on the library's writers"""
+        out = [n & 0x7F]
+        n >>= 7
+        while n:
+            out.append(0x80 | (n & 0x7F))
+            n >>= 7
+        return bytes(reversed(out))
+
     nbuilt = 400 if ctx.quick else 6000
     for _ in range(nbuilt):
         ndoc = rng.choice([1, 1, 2, 3])
-        buf, exps, ok = b"", [], True
+        buf, wire, exps, ok = b"", b"", [], True
         prev_cdt = False
         for j in range(ndoc):
             d = rng.choice(lrrp_ids)
@@ -162,19 +171,25 @@ def run(ctx):
             try:
                 doc, exp = build_doc(d, mode)
                 b = MBXML.as_bytes(doc)
+                # the same document framed as the grammar says (MBXMLDoc.tla): id, length, constants table part, token chain;
+                # only the token chain comes from the library, so a serialiser slip cannot disguise itself as a different input
+                parts = b"".join(MBXML.write_part(p) for p in doc.parts)
+                cdt = b"" if mode == "none" else (b"\x01" if mode == "inherited" else uv(len(doc.constants_table)) + doc.constants_table)
+                w = uv(d.value[0]) + uv(len(cdt + parts)) + cdt + parts
                 if mode == "inherited" and not hasattr(doc, "is_constant_table_inherited"):
-                    # the object model cannot express inheritance: splice the wire form (CDT length octet 0x01, no table)
-                    body = b"\x01" + b"".join(MBXML.write_part(p) for p in doc.parts)
-                    b = MBXML.write_uintvar(d.value[0]) + MBXML.write_uintvar(len(body)) + body
+                    b = w       # the object model cannot express inheritance
             except Exception as ex:  # noqa
                 samples.append({"buf": [], "built": True, "err": "build:" + type(ex).__name__, "ndocs": 0, "ids": [], "tokens": [], "reser": [], "values_equal": False})
                 ok = False
                 break
             buf += b
+            wire += w
             exps.append(exp)
             prev_cdt = prev_cdt or not d.value[1]
         if ok:
             samples.append(observe(buf, True, exps))
+            if wire != buf:
+                samples.append(observe(wire, True, exps))
     # ---- through the token lookup API
     for _ in range(60 if ctx.quick else 600):
         d = rng.choice([x for x in lrrp_ids if x.value[1]])
